@@ -93,6 +93,9 @@ func (p c10) Run(w *mon.Worker, idx int) mon.Result {
 		res.Tags = append(res.Tags, "family:O6")
 		return res
 	}
+	if idx%20 == 7 && !w.Race {
+		return c10JSONStream(w, idx)
+	}
 	r := w.Rand(idx)
 	dir := filepath.Join(w.Scratch, fmt.Sprintf("c10-%d", idx))
 	_ = os.MkdirAll(dir, 0o755)
